@@ -192,7 +192,7 @@ pub fn print_opts(s: &str) -> lexpr::print::Options {
 pub const P_DEFAULT: &str = "2100100";
 pub const P_ELISP: &str = "0011211";
 pub const R_DEFAULT: &str = "0011100000";
-pub const R_ELISP: &str = "1000011101";
+pub const R_ELISP: &str = "1000111101"; // what parse::Options::elisp() is (checked by the `opts R elisp` operation): `t` stays a symbol
 
 /// One input per error code (the same rows as the regenerated error table, DESIGN.md 4.1).
 pub const ERROR_TRIGGERS: &[(&str, &[u8])] = &[
